@@ -51,6 +51,16 @@ def check_sanitizer(ctx):
     def wrap_ok(call):
         """textwrap.wrap(..., initial_indent='#..', subsequent_indent='#..')"""
         call = en.expand(call)
+        if isinstance(call, ast.Call) and method_call(call, 'wrap') and \
+                isinstance(method_call(call)[0], ast.Call) and prog.resolve(
+                    f.module, method_call(call)[0].func) == \
+                'ext:textwrap.TextWrapper':
+            # TextWrapper(<options>).wrap(text) = textwrap.wrap(text,
+            # <options>)
+            call = ast.Call(func=ast.Attribute(
+                value=ast.Name(id='textwrap', ctx=ast.Load()), attr='wrap',
+                ctx=ast.Load()), args=list(call.args),
+                keywords=list(method_call(call)[0].keywords))
         if not (isinstance(call, ast.Call) and prog.resolve(
                 f.module, call.func) == 'ext:textwrap.wrap'):
             return False, 'extended by something other than wrapped ' \
